@@ -135,6 +135,17 @@ def r14_2(prog: Program, rep):
                "an answer is returned from a multi-pack-index hit without checking that the pack it names still exists: "
                "a stale MIDX makes `oid in store` true while store[oid] raises", g.nodes[bad[0]].line if bad else f.node.lineno,
                lines(g, path(g, hits, bad[0], avoid=set(deref) | set(fallback))) if bad else [])
+        # every use of the pack obtained from the MIDX hit lies inside the protected region
+        for tnode in [t for t in ast.walk(f.node) if isinstance(t, ast.Try)]:
+            if not any(isinstance(c, ast.Call) and callee_name(c) == "_get_pack_by_name" for s_ in tnode.body for c in ast.walk(s_)):
+                continue
+            packvars = {s_.targets[0].id for s_ in ast.walk(tnode) if isinstance(s_, ast.Assign) and isinstance(s_.targets[0], ast.Name)
+                        and isinstance(s_.value, ast.Call) and callee_name(s_.value) == "_get_pack_by_name"}
+            outside = [x for part in (tnode.orelse, tnode.finalbody) for s_ in part for x in ast.walk(s_)
+                       if isinstance(x, ast.Name) and x.id in packvars]
+            rep.ob("R14.2", OS_PY, f.qual, "the pack named by the MIDX is dereferenced inside the protected region", not outside,
+                   "the pack is looked up inside try but used outside it: PackFileDisappeared from the stale pack escapes instead of "
+                   "falling back", tnode.lineno)
         # the dereference is protected: KeyError / PackFileDisappeared lead to the fallback
         for d in deref:
             handlers = [h for t in ast.walk(f.node) if isinstance(t, ast.Try)
@@ -204,6 +215,24 @@ def r14_2(prog: Program, rep):
         raise AnalysisError(f"expected >= 3 accesses of Pack.bitmap, found {n_acc}")
 
 
+def enumerate_last(prog, rep, rule, m, f):
+    """`for n, x in enumerate(S): if n == len(X) - 1:` - the 'last element' test must measure the sequence being iterated."""
+    k = 0
+    for lp in [x for x in ast.walk(f.node) if isinstance(x, ast.For) and isinstance(x.iter, ast.Call) and callee_name(x.iter) == "enumerate"
+               and x.iter.args and isinstance(x.target, ast.Tuple) and isinstance(x.target.elts[0], ast.Name)]:
+        idx = lp.target.elts[0].id
+        seq = norm(lp.iter.args[0])
+        for c in ast.walk(lp):
+            if isinstance(c, ast.Compare) and isinstance(c.left, ast.Name) and c.left.id == idx and isinstance(c.ops[0], ast.Eq) \
+                    and "len(" in norm(c.comparators[0]):
+                k += 1
+                measured = [norm(x.args[0]) for x in ast.walk(c.comparators[0]) if isinstance(x, ast.Call) and callee_name(x) == "len" and x.args]
+                rep.ob(rule, m.rel, f.qual, f"`{norm(c)}` measures the sequence the loop iterates (`{seq}`)", measured == [seq],
+                       f"the loop runs over `{seq}` but its 'last element' test uses len({measured}): the last-edge flag is set on the "
+                       f"wrong element or never, so the reader runs on into the next commit's edges", c.lineno)
+    return k
+
+
 def r14_3(prog: Program, rep):
     m = prog.module("dulwich/commit_graph.py")
     w = prog.func(m.rel, "CommitGraph.write_to_file")
@@ -218,6 +247,28 @@ def r14_3(prog: Program, rep):
         rep.ob("R14.3", m.rel, w.qual, f"writer uses {c} (the reader interprets it)", c in names_w,
                "the reader decodes an encoding the writer never produces: information that needs it (parents beyond the "
                "second) is dropped when the graph is written", w.node.lineno)
+    # the index stored with GRAPH_EXTRA_EDGES_NEEDED is in the unit the reader multiplies by (one edge = one 4-byte slot)
+    rd = m.funcs.get("CommitGraph._parse_extra_edges")
+    if rd is None:
+        raise AnalysisError("CommitGraph._parse_extra_edges not found")
+    from sa.consts import Folder
+    F = Folder(prog, m)
+    scale = [F.try_fold(x.right) for x in ast.walk(rd.node) if isinstance(x, ast.BinOp) and isinstance(x.op, ast.Mult)
+             and isinstance(x.left, ast.Name) and x.left.id == "index"]
+    stored = [x for x in ast.walk(w.node) if isinstance(x, ast.BinOp) and isinstance(x.op, ast.BitOr) and "GRAPH_EXTRA_EDGES_NEEDED" in norm(x.left)]
+    unit_ok = False
+    detail = "no `GRAPH_EXTRA_EDGES_NEEDED | <index>` expression in the writer"
+    for x in stored:
+        r = x.right
+        if isinstance(r, ast.BinOp) and isinstance(r.op, ast.FloorDiv) and "len(" in norm(r.left):
+            unit_ok = scale == [F.try_fold(r.right)]
+            detail = f"writer stores len(...) // {F.try_fold(r.right)}, reader multiplies by {scale}"
+        elif "len(" in norm(r) :
+            detail = f"writer stores `{norm(r)}` (a byte length), reader multiplies the stored index by {scale}"
+        else:
+            unit_ok = True       # an entry counter
+    rep.ob("R14.3", m.rel, w.qual, "extra-edge index is stored in the unit the reader scales (4-byte slots)", unit_ok, detail, w.node.lineno)
+    enumerate_last(prog, rep, "R14.3", m, w)
     # a branch for more than two parents exists and does not merely repeat the two-parent encoding
     branches = [x for x in ast.walk(w.node) if isinstance(x, ast.If) and "len(entry.parents)" in norm(x.test)]
     rep.ob("R14.3", m.rel, w.qual, "parent count is dispatched (0, 1, 2, more)", len(branches) >= 3, "", w.node.lineno)
